@@ -927,7 +927,15 @@ func statusVars(r *rand.Rand) (vars []byte, charset []int, codes []int) {
 		code byte
 		gen  func() []byte
 	}
-	nstr := func(max int) []byte { n := r.Intn(max + 1); return append([]byte{byte(n)}, randBytes(r, n)...) }
+	// length-prefixed payloads: any length a one-byte prefix can express, boundaries often
+	nstr := func(max int) []byte {
+		n := r.Intn(max + 1)
+		if r.Intn(3) == 0 {
+			n = []int{0, 1, 127, 128, 253, 254, 255}[r.Intn(7)]
+		}
+		return append([]byte{byte(n)}, randBytes(r, n)...)
+	}
+	oldCatalog := r.Intn(4) == 0 // Q_CATALOG_CODE (2: length, name, NUL) as written by 5.0.0-5.0.3 instead of Q_CATALOG_NZ_CODE (6)
 	cs := []int{-1, -1, -1}
 	order := []sv{
 		{0, func() []byte { return randBytes(r, 4) }},
@@ -995,9 +1003,13 @@ func statusVars(r *rand.Rand) (vars []byte, charset []int, codes []int) {
 	}
 	for i, v := range order {
 		if in[i] {
-			vars = append(vars, v.code)
-			vars = append(vars, v.gen()...)
-			codes = append(codes, int(v.code))
+			code, payload := v.code, v.gen()
+			if code == 6 && oldCatalog {
+				code, payload = 2, append(payload, 0)
+			}
+			vars = append(vars, code)
+			vars = append(vars, payload...)
+			codes = append(codes, int(code))
 		}
 	}
 	return vars, cs, codes
@@ -1047,17 +1059,33 @@ func modeC16(e *Env) {
 			}
 			crc := alg == 1
 			lastValid := false
-			var lastRaw []byte
+			var lastRaw, lastCks []byte
+			var lastStripErr error
 			dec := func(typ byte, body []byte) replication.BinlogEvent {
 				raw := mkEvent(ts, typ, sid, np, flags, body, crc)
 				lastRaw = raw
 				ev := replication.NewMysql56BinlogEvent(raw)
 				lastValid = ev.IsValid()
-				ev, _, _ = ev.StripChecksum(f)
+				ev, lastCks, lastStripErr = ev.StripChecksum(f)
 				return ev
 			}
 			hdr := func(ev replication.BinlogEvent) M {
-				return M{"valid": lastValid, "ts": u32s(ev.Timestamp()), "np": strconv.FormatInt(ev.NextPosition(), 10), "raw": B(lastRaw)}
+				return M{"valid": lastValid, "ts": u32s(ev.Timestamp()), "np": strconv.FormatInt(ev.NextPosition(), 10), "raw": B(lastRaw),
+					"striperr": lastStripErr != nil}
+			}
+			// any event type, bodies from empty (STOP, HEARTBEAT-like header-only events) upwards: applying the announced
+			// checksum algorithm removes exactly the four trailing bytes, or nothing
+			for _, blen := range []int{0, pick(e.R, 1, 3, 4, 5), e.R.Intn(40)} {
+				typ := byte(pick(e.R, 3, 27, 16, 2, 4, 5, 13, 19, 33, 35, e.R.Intn(256)))
+				if typ == tFormatDesc {
+					typ = 3
+				}
+				body := randBytes(e.R, blen)
+				gev := dec(typ, body)
+				o := hdr(gev)
+				o["stripped"], o["cks"] = B(gev.Bytes()), B(lastCks)
+				emitCase(e, M{"fn": "ev.any", "cls": "any-event", "alg": alg, "ts": u32s(ts), "np": u32s(np), "sid": u32s(sid), "flags": int(flags),
+					"typ": int(typ), "body": B(body), "obs": o})
 			}
 			// ROTATE
 			rname := string(randBytes(e.R, pick(e.R, 1, 16, 255, e.R.Intn(100)+1)))
